@@ -513,8 +513,8 @@ def c35(ctx):
 
 def c26(ctx):
     ctx.assumptions = ["ideal encryption under the fixed WebRTC signaling context (WebRtcSignal.tla)",
-                       "'a WebRTC link is only accepted from the signaled peer' is decided through the expected-peer clause of C03 (quic DialSession / ListenSession with the session's peer id); "
-                       "that executeLink passes the session peer is not exercised end to end (a data-channel man in the middle cannot be built offline)"]
+                       "'a WebRTC link is only accepted from the signaled peer': the real sessionTracker.executeLink (hook VerifExecuteLink) runs over an in-memory data channel whose "
+                       "other end authenticates as the signaled peer or as another key; the ICE/DTLS negotiation that produces the data channel is not run offline"]
     ctx.rule = ("signal kinds (offer, answer, ICE, empty ICE, offer request) x recipient key x decoding key x tampering class x context; all pairs of distinct id strings up to length 3 "
                 "and seeded real peer-id pairs for the role rule; non-trivial = all")
 
@@ -545,6 +545,18 @@ def c26(ctx):
         elif c["aopens"] is not None and o["ab"] != c["aopens"]:
             ctx.notes.append("offerer rule differs from lexicographic order for %r/%r (not demanded)" % (c["a"], c["b"]))
     ctx.cov["offerer_pairs"] = len(conv)
+
+    # the link itself: the real session's executeLink over an in-memory data channel (hook VerifExecuteLink)
+    def judge_link(c, o):
+        i, e = c["in"], c["out"]
+        if (o["links"] > 0) != e["link"]:
+            return ("link:%s:%s" % ("accepted" if o["links"] else "refused", i["role"] + ":" + i["auth"]),
+                    "local %s, other end authenticates as the %s peer: %d link(s) established, spec says %s" % (i["role"], i["auth"], o["links"], e["link"]))
+        if o["links"] and o["remote"] != "signaled":
+            return ("link:identity", "the established link names %r instead of the signaled peer (%s)" % (o["remote"], i))
+        return None
+
+    run_table(ctx, "WebRtcLink", "link", judge_link, driver="webrtc", extra_args=["-mode", "link"])
     ctx.exhaustive = True
 
 
